@@ -73,13 +73,17 @@ ExactOK(g, ex) ==
 
 \* C01 applies to local polynomial grids only when every loaded point has all of its parents loaded
 \* and to global grids only for nested rules (the interpolant of a non-nested sparse grid is not nodal)
-NodalRequired(g) == /\ NestedFam(g)
+NodalRequired(g) == /\ NestedFam(g) /\ ~g.rem
                     /\ (g.fam # "localp" \/ \A p \in g.pts : AllParents(g, p) \subseteq g.pts)
+\* after points were removed by coefficient size the kept coefficients are no longer the hierarchical transform of the kept
+\* values (documented: the hierarchy is not preserved): routes that go through the values are not comparable
+ValueRoutes == {"weights_values", "diffweights_values", "integrate_qweights"}
 ObsOKFor(g, obs) ==
     /\ Req(<<"obs-nodal", IF ~IsEmpty(g) /\ g.orph THEN "after-a-child-was-promoted-before-a-parent" ELSE "every-promotion-had-its-parents">>,
            (Has(obs, "nodal") /\ Has(obs.nodal, "evaluate") /\ ~IsEmpty(g) /\ NodalRequired(g))
             => (obs.nodal.evaluate /\ obs.nodal.batch /\ obs.nodal.fast))
-    /\ Req(<<"obs-routes", IF Has(obs, "routes") THEN {f \in DOMAIN obs.routes : obs.routes[f] = FALSE} ELSE {}>>, Has(obs, "routes") => AllTrue(obs.routes))
+    /\ Req(<<"obs-routes", IF Has(obs, "routes") THEN {f \in DOMAIN obs.routes : obs.routes[f] = FALSE} ELSE {}>>,
+           Has(obs, "routes") => IF ~IsEmpty(g) /\ g.rem THEN AllTrue([f \in (DOMAIN obs.routes) \ ValueRoutes |-> obs.routes[f]]) ELSE AllTrue(obs.routes))
     /\ Req(<<"obs-rt", IF Has(obs, "rt") THEN {f \in DOMAIN obs.rt : obs.rt[f] = FALSE} ELSE {}>>, Has(obs, "rt") => AllTrue(obs.rt))
     /\ (Has(obs, "exact") /\ ~IsEmpty(g)) => ExactOK(g, obs.exact)
     /\ Req(<<"obs-grad", IF Has(obs, "grad") THEN {f \in DOMAIN obs.grad : obs.grad[f] = FALSE} ELSE {}>>, Has(obs, "grad") => AllTrue(obs.grad))
@@ -165,6 +169,34 @@ TLoadC == /\ IsEvent("loadc")
                                                             !.orph = g.orph \/ \E p \in N : ~(AllParents(g, p) \subseteq g.pts \cup N)]))
                         ELSE Commit(Ev.o, LoadC(g, Ev.a))
           /\ Unch
+\* coefficients set directly: the coefficients read back are the ones supplied
+TSetCoef == /\ IsEvent("setcoef")
+            /\ IF Ev.r = "skipped" THEN Commit(Ev.o, [g |-> G(Ev.o), r |-> "skipped"])
+               ELSE /\ Req("coef-roundtrip", Has(Ev, "coef_roundtrip") /\ Ev.coef_roundtrip)
+                    /\ Commit(Ev.o, SetCoef(G(Ev.o), Ev.a.epoch))
+            /\ Unch
+\* points removed by coefficient size: by tolerance the kept set is computed; by count it is an observation that
+\* must be a set of the requested size holding the largest coefficients (ties are the library's choice)
+RemoveArgs == [tolq |-> Ev.a.tolq, ratios |-> Ev.a.ratios, before |-> IF Has(Ev, "before") THEN Ev.before ELSE <<>>]
+TRemove == /\ IsEvent("remove")
+           /\ IF Ev.r = "skipped" THEN Commit(Ev.o, [g |-> G(Ev.o), r |-> "skipped"])
+              ELSE /\ Req("remove-before", IsEmpty(G(Ev.o)) \/ G(Ev.o).fam # "localp" \/ Range(RemoveArgs.before) = G(Ev.o).pts)
+                   /\ Commit(Ev.o, Remove(G(Ev.o), RemoveArgs))
+           /\ Unch
+TRemoveN == /\ IsEvent("removen")
+            /\ IF Ev.r = "skipped" THEN Commit(Ev.o, [g |-> G(Ev.o), r |-> "skipped"])
+               ELSE LET g == G(Ev.o)
+                    IN IF IsEmpty(g) \/ g.fam # "localp" THEN Commit(Ev.o, Run(g))
+                       ELSE LET a == RemoveArgs
+                                K == IF StOf(Ev.o).fam = "empty" THEN {} ELSE Range(StOf(Ev.o).pts)
+                                R == [i \in 1..Len(a.before) |-> a.ratios[i]]
+                                idx(p) == CHOOSE i \in 1..Len(a.before) : a.before[i] = p
+                            IN /\ Req("remove-before", Range(a.before) = g.pts)
+                               /\ Req("removen-subset", K \subseteq g.pts)
+                               /\ Req("removen-count", Cardinality(K) = Ev.a.keep)
+                               /\ Req("removen-largest", \A p \in K : \A q \in g.pts \ K : R[idx(p)] + 1 >= R[idx(q)])
+                               /\ Commit(Ev.o, RemoveTo(g, K))
+            /\ Unch
 TNop == IsEvent("nop") /\ Commit(Ev.o, Ok(G(Ev.o))) /\ Unch
 \* continuing on the object restored from its own file image is the identity (C06)
 TRtSwap == IsEvent("rtswap") /\ Commit(Ev.o, Ok(G(Ev.o))) /\ Unch
@@ -298,7 +330,7 @@ TLoadWrong == IsEvent("loadwrong") /\ Ev.r = "runtime_error" /\ Commit(Ev.o, Run
 
 TNext == TReset \/ TEnd \/ TMake \/ TLoad \/ TMerge \/ TClear \/ TUpdate \/ TAniso \/ TBegin \/ TFinish \/ TLoadC \/ TNop \/ TRtSwap
          \/ TSurp \/ TSurpL \/ TCand \/ TCandL \/ TTransform \/ TClearTransform \/ TConformal \/ TClearConformal \/ TClearLimits
-         \/ TCopy \/ TCopyCtor \/ TAssign \/ TBad \/ TLoadWrong
+         \/ TCopy \/ TCopyCtor \/ TAssign \/ TBad \/ TLoadWrong \/ TSetCoef \/ TRemove \/ TRemoveN
 
 TSpec == TInit /\ [][TNext]_tvars
 
